@@ -55,6 +55,19 @@ def mf(n):
 
 def mg(n):
     return mf(n) + 1
+
+import lpv_base as _b
+
+class Child(_b.Base):
+    def run(self, x):
+        return self.helper(x) + 1
+'''
+# a module nobody names: its class is only the base of a class of the named module
+BASESRC = '''
+class Base:
+    def helper(self, x):
+        y = x + 1
+        return y
 '''
 
 
@@ -85,7 +98,7 @@ def run_case(c, d):
     if c['T']:
         line += ' -T %s' % tfile
     kind = c['stmt_kind']
-    stmt = ('res = h(4); res2 = K().meth(2); res5 = sq(3) + cube(2) + cube(1); import lpv_mod; res3 = lpv_mod.mg(3); import lpv_pkg.sub; res4 = lpv_pkg.ptop(1) + lpv_pkg.sub.pinner(2); '
+    stmt = ('res = h(4); res2 = K().meth(2); res5 = sq(3) + cube(2) + cube(1); import lpv_mod; res3 = lpv_mod.mg(3) + lpv_mod.Child().run(2); import lpv_pkg.sub; res4 = lpv_pkg.ptop(1) + lpv_pkg.sub.pinner(2); '
             'ender(%r); after = 1' % kind)
     line += ' ' + stmt
     del PAGES[:]
@@ -139,6 +152,8 @@ def main():
     with tempfile.TemporaryDirectory(dir=os.environ.get('LPVERIF_SCRATCH', '/var/tmp')) as d:
         with open(os.path.join(d, 'lpv_mod.py'), 'w') as fh:
             fh.write(MODSRC)
+        with open(os.path.join(d, 'lpv_base.py'), 'w') as fh:
+            fh.write(BASESRC)
         # a package whose __init__ and sub-module both define functions: `-m lpv_pkg.sub` names the sub-module only
         os.makedirs(os.path.join(d, 'lpv_pkg'))
         with open(os.path.join(d, 'lpv_pkg', '__init__.py'), 'w') as fh:
